@@ -18,7 +18,7 @@ RULE = ("(a) BatchSage: data sets of 1..6 rows, d in 1..4, exact rationals or fl
         "recording imputer (normal mode) or from the identity of value objects in the recorded model inputs (original mode; a chain "
         "that cannot be reconstructed unambiguously because a background row was the explained row itself skips (ii) only). "
         "(b) IntervalSage through a RuleBasedStateMachine: rule explain_one(x, y, force, update_storage, n_inner override), "
-        "interval_length 1..5, storage_length 1..5 (a recomputation on an empty window is never generated). Oracle (iii): on a "
+        "interval_length 1..5, storage_length 1..5 or left at its documented default 1000 (a recomputation on an empty window is never generated). Oracle (iii): on a "
         "non-multiple unforced call the returned dict equals the previous values with ZERO model and loss evaluations; otherwise (i) "
         "holds on exactly the window = last storage_length stored observations, the model is evaluated once on the whole window plus "
         "|window|*d*n_inner single calls; seen_samples == number of calls. After every call the storage content and the caller's observation dicts are compared BY VALUE with copies taken at arrival. Non-trivial: n>=2 and d>=2 (batch); history with a forced "
@@ -315,6 +315,9 @@ class IntervalSim:
             kw['storage'] = IntervalStorage(size=cfg['storage_length'], store_targets=True)
             self.ex = IntervalSage(self.model, self.names, self.loss, interval_length=cfg['interval'],
                                    storage_length=cfg['storage_length'] + cfg['own_storage'], **kw)
+        elif cfg['storage_length'] >= 1000:
+            # storage_length left at its documented default (1000): on these short streams the window is everything stored so far
+            self.ex = IntervalSage(self.model, self.names, self.loss, interval_length=cfg['interval'], **kw)
         else:
             self.ex = IntervalSage(self.model, self.names, self.loss, interval_length=cfg['interval'],
                                    storage_length=cfg['storage_length'], **kw)
@@ -418,7 +421,7 @@ def interval_cfg(draw):
     return {'names': draw(cfgs.names_st(d)), 'spec': draw(cfgs.model_st(d)), 'loss': draw(cfgs.loss_st()),
             'mode': draw(st.sampled_from(['exact', 'float'])), 'seeds': [draw(gen.seed32), draw(gen.seed32)],
             'n_inner': draw(st.sampled_from([None, 1, 2])), 'interval': draw(st.integers(1, 5)),
-            'storage_length': draw(st.integers(1, 5)), 'own_storage': draw(st.sampled_from([0, 0, 1, 3]))}
+            'storage_length': draw(st.sampled_from([1, 2, 3, 4, 5, 1000])), 'own_storage': draw(st.sampled_from([0, 0, 1, 3]))}
 
 
 def make_machine():
